@@ -101,6 +101,13 @@ def _cur_ok(proc):
     return plumpy.Process.current() is proc
 
 
+class StrictChild(plumpy.Process):
+    @classmethod
+    def define(cls, spec):
+        super().define(spec)
+        spec.input('x', valid_type=int)
+
+
 @plumpy.auto_persist('trace')
 class ProgBase(plumpy.Process):
     PROGRAM = None
@@ -248,6 +255,10 @@ class ProgBase(plumpy.Process):
             return Kill() if ret[1] is None else Kill(MessageBuilder.kill(text=ret[1]))
         if kind == 'raise':
             raise (ProgKeyError if str(ret[1]).startswith('key:') else ProgError)(ret[1])
+        if kind == 'badchild':
+            # the step gives invalid inputs to another process it wants to start: the library's own validation error, wrapped in the
+            # ValueError the constructor raises, ends the process
+            StrictChild(inputs={'x': 'not-an-int'}, loop=self.loop)
         if kind == 'misuse':
             # the step makes a control call that is not valid in the state it runs in: the library's own EventError ends the process
             self.resume(ret[1])
@@ -512,6 +523,8 @@ def expected_run(program, resume_values=()):
             final = ('killed', {'text': None if ret[1] == '@NOTEXT' else ret[1]})
         elif kind == 'raise':
             final = ('excepted', {'tag': ret[1]})
+        elif kind in ('badchild', 'misuse'):
+            final = ('excepted', {'tag': '<%s>' % kind})
         break
     return {'enters': enters, 'outputs': outputs, 'final': final, 'waits': waits}
 
